@@ -334,15 +334,16 @@ func (r *Reader) initFields() error {
 }
 
 func (r *Reader) getSource(ent *TOCEntry) (_ *TOCEntry, err error) {
-	if ent.Type == "hardlink" {
+	// A chain of hardlinks cannot be longer than the number of entries unless it loops.
+	for hops := 0; ent.Type == "hardlink"; hops++ {
+		if hops > len(r.m) {
+			return nil, fmt.Errorf("%q is a hardlink to itself (via %q)", ent.Name, ent.LinkName)
+		}
 		org, ok := r.m[cleanEntryName(ent.LinkName)]
 		if !ok {
 			return nil, fmt.Errorf("%q is a hardlink but the linkname %q isn't found", ent.Name, ent.LinkName)
 		}
-		ent, err = r.getSource(org)
-		if err != nil {
-			return nil, err
-		}
+		ent = org
 	}
 	return ent, nil
 }
